@@ -4,6 +4,9 @@ CONSTANTS MaxLen = 5
   Starts <- StartsAll
   Xs = {1, 2}
   Nested = FALSE
+  Ys <- NoData
+  Extra <- NoElems
+  Variant = "doc"
   CopyVarContext = TRUE
   ExtendByCompose = TRUE
 INVARIANT Emitted
